@@ -23,6 +23,8 @@ ASSUMPTIONS = [
   'or (blackhole) drops everything sent on established connections and refuses new ones',
   'C09.failFast is asserted only for requests issued while the resurrector reports Closed and no connect attempt is in progress',
   'back-off gaps are measured from the end of one attempt to the start of the next; domain initial > 1 s, exponent > 1',
+  'C09.quietAfterClose does not count the single re-open the serial transport makes for a call that was already in flight when the client '
+  'was closed and then times out (straggler rule; the same rule keeps such re-opens out of the back-off judgement)',
   'C09.recovers is asserted by the driver only after the endpoint has been reachable with steady traffic for max_wait_interval + slack',
   'multi-endpoint cases: all n members are in the aperture (min_size = n, jitter off) or the heap balancer is used, and steady traffic is '
   'bursts of n + 1 concurrent calls, so a least-loaded balancer has to use every member that is up; the trace is the projection on one endpoint',
